@@ -1504,21 +1504,32 @@ theorem prov_fixTail (r : Row) (st : Style) : RowProv st r (fixTail r st) := by
     · exact RowProv.refl _ _
   · exact RowProv.refl _ _
 
+theorem prov_cutRow (r : Row) (W : Nat) (st : Style) : RowProv st r (cutRow r W st) := by
+  unfold cutRow
+  intro c hc
+  have hc := List.mem_of_mem_take hc
+  split at hc
+  · exact prov_blankCharAt _ _ _ c hc
+  · exact Or.inr hc
+
 theorem prov_putKeep (r : Row) (x : Nat) (text : Bytes) (w : Nat) (st : Style) :
     RowProv st r (r.putKeep x text w st) := by
   unfold Row.putKeep; simp only []
-  refine RowProv.trans ?_ (prov_fixTail _ _)
+  refine RowProv.trans ?_ (prov_cutRow _ _ _)
   have h1 : RowProv st r (if contAt r (x + w) then blankCharAt r (x + w) st else r) := by
     split
     · exact prov_blankCharAt _ _ _
     · exact RowProv.refl _ _
   intro c hc
-  have hc := List.mem_of_mem_take hc
   rcases List.mem_append.mp hc with h | h
   · rcases List.mem_append.mp h with h | h
-    · exact h1 c (List.mem_of_mem_take h)
+    · exact Or.inr (List.mem_of_mem_take h)
     · exact Or.inl (sty_of_mem_charCells h)
-  · exact h1 c (List.mem_of_mem_drop h)
+  · split at h
+    · rcases List.mem_append.mp h with h | h
+      · left; rw [(List.mem_replicate.mp h).2]; rfl
+      · exact Or.inr (List.mem_of_mem_drop h)
+    · exact h1 c (List.mem_of_mem_drop h)
 
 /-- every cell of the grid `g'` either carries `st` or was already somewhere in the grid `g` -/
 def GridProv (st : Style) (g g' : List Row) : Prop :=
